@@ -17,11 +17,11 @@ RULE = ("scenario = history of 2..6 connections; each response carries 0..2 Set-
         "outside and look-alike to the domains; a response may also set a cookie whose own line names no Domain; names whose "
         "'name=value' text sorts unlike the name; quoted values containing '; ' and escaped CR LF; optional caller cookie (also "
         "one whose text is part of a stored pair) and Host-header override; targets that differ from a domain only in the character "
-        "standing where the domain has a dot.  The process-wide jar is emptied before each "
+        "standing where the domain has a dot; domains consisting of dots only and targets spelled with a trailing dot; a cookie named like a cookie attribute (domain, path, version) on a later line.  The process-wide jar is emptied before each "
         "history.  Oracle = reference jar (domain -> name -> value, only cookies whose response named a Domain, latest "
         "value wins) -> expected Cookie header = name-sorted applicable cookies then the caller's cookie; compared with "
         "the Cookie header each peer parsed.  Enumerated completely: every (setting domain form, target host) pair over "
-        "8 domain forms x 14 hosts, one cookie.  non-trivial = at least one stored cookie and a later connection; "
+        "10 domain forms x 16 x 16 hosts, one cookie.  non-trivial = at least one stored cookie and a later connection; "
         "distinct = (per step: domain form class, number of cookies, target relation inside/outside/look-alike/"
         "sub-domain, caller cookie?)")
 ASSUMPTIONS = ["a quoted value is replayed in the quoted form in which it was set",
